@@ -431,25 +431,27 @@ def run(chk):
             from ..paths import ref_inits
             locs = ref_inits(f)
             why = "the wrapper is built without a dominating arity test whose failing arm throws bad_boxed_cast"
-            for c, t in flow.facts(builds[0]):
-                c2 = strip_casts(c)
-                if t or c2.get("k") != "unop" or c2.get("op") != "!":
-                    continue
-                v = strip_casts(c2["e"])
+            for c, t in atomic_facts(flow, builds[0]):
+                v = strip_casts(c)
                 init = locs.get(v.get("vid"), {}).get("init") if v.get("k") == "ref" else None
                 if init is None:
                     continue
-                anyof = [x for x in walk(init) if x.get("k") == "call" and x.get("name") == "any_of"]
+                quant = [x for x in walk(init) if x.get("k") == "call" and x.get("name") in ("any_of", "none_of")]
                 lam = [x for x in walk(init) if x.get("k") == "lambda" and x.get("fn") is not None]
-                if not anyof or not lam:
+                if not quant or not lam:
+                    continue
+                # "some candidate fits" is established when any_of(..) is true or none_of(..) is false
+                if (quant[0]["name"] == "any_of") != bool(t):
                     continue
                 lf = prog.fn_by_id(f, lam[0]["fn"])
                 txt = " ".join(expr_str(prog, lf, x["e"]) for x in walk(lf["body"]) if x.get("k") == "return" and x.get("e") is not None) if lf else ""
                 variadic = "get_arity() == -1" in txt.replace("(-1)", "-1") or "== -1" in txt
-                equal = "arity(" in txt and "get_arity()" in txt and "==" in txt
+                # the signature's parameter count: detail::arity(..) in the predicate itself or in a local it captures
+                arity_locals = [lv["name"] for lv in locs.values() if lv.get("init") is not None and any(y.get("k") == "call" and y.get("name") == "arity" for y in walk(lv["init"]))]
+                equal = "get_arity()" in txt and "==" in txt and ("arity(" in txt or any(re.search(r"\b%s\b" % re.escape(nm), txt) for nm in arity_locals))
                 thrower = None
                 for x in walk(f["body"]):
-                    if x.get("k") == "if" and strip_casts(x.get("cond") or {}) is c2 or (x.get("k") == "if" and x.get("cond") is c):
+                    if x.get("k") == "if" and any(y is v or strip_casts(y) is v for y in walk(x.get("cond") or {})):
                         thrower = x
                 throws = thrower is not None and always_exits(thrower.get("then")) and any(
                     y.get("k") == "throw" and "bad_boxed_cast" in prog.T(f, y.get("tt")) for y in walk(thrower.get("then") or {}))
